@@ -128,6 +128,7 @@ type Engine struct {
 	uniq                                          []uniqEntry
 	parGroups                                     int
 	allocSub                                      int
+	unwrittenGlobals                              map[int]string
 	nowSeq                                        int
 	ambiguousInput                                string
 	forkSites                                     map[string]int
@@ -302,7 +303,11 @@ func (e *Engine) get(st *State, f *Frame, v ssa.Value) Val {
 			if why, bad := e.initFailed[x.Pkg]; bad {
 				id := e.globalObj(x)
 				if !e.initWritten[id] {
-					return Poison{"global " + x.String() + " (package init incomplete: " + why + ")"}
+					// reads are poisoned until the harness itself stores to the global
+					if e.unwrittenGlobals == nil {
+						e.unwrittenGlobals = map[int]string{}
+					}
+					e.unwrittenGlobals[id] = "global " + x.String() + " (package init incomplete: " + why + ")"
 				}
 			}
 		}
